@@ -10,6 +10,7 @@ import (
 	"context"
 	"io"
 	"net/http"
+	"sync"
 )
 
 // VerifCompression mirrors compressionOptions.
@@ -96,4 +97,12 @@ func VerifReadFrameHeader(r *bufio.Reader) (VerifHeader, error) {
 func VerifWriteFrameHeader(h VerifHeader, w *bufio.Writer) error {
 	var buf [8]byte
 	return writeFrameHeader(header{h.Fin, h.Rsv1, h.Rsv2, h.Rsv3, opcode(h.Opcode), h.PayloadLength, h.Masked, h.MaskKey}, w, buf[:])
+}
+
+// VerifResetGlobals forgets lazily built package-level state (the sliding
+// window pool table) so that every explored execution starts cold.
+func VerifResetGlobals() {
+	swPoolMu.Lock()
+	swPool = map[int]*sync.Pool{}
+	swPoolMu.Unlock()
 }
